@@ -151,6 +151,9 @@ class RowMachine:
         ops.append(("extend_cells", [(8, 1), (9, 2)]))
         ops.append(("clear",))
         ops.append(("rstrip",))
+        for w in sorted({0, 1, max(W - 1, 0), W, W + 1}):
+            if alphabet != "mini" or w in (1, max(W - 1, 0)):
+                ops.append(("force_width", w))
         # Cell.repeated = k on a bound cell (run containing x)
         for x in sorted({0, max(W - 1, 0)}):
             if x < W:
@@ -159,6 +162,8 @@ class RowMachine:
         # cache-populating reads (deviations, C02)
         ops.append(("read_get_cell", 0))
         ops.append(("read_traverse",))
+        if alphabet != "mini":
+            ops.append(("read_minimized_width",))
         return ops
 
     # ------------------------------------------------------------ step
@@ -167,7 +172,7 @@ class RowMachine:
         elem = st.row._Element__element
         runs = TR.row_runs(elem)
         W = st.model.width
-        info = {"W": W, "runs": len(runs), "maxrep": max([k for _, k in runs], default=0)}
+        info = {"W": W, "runs": len(runs), "maxrep": max([k for _, k in runs], default=0), "last_run": tuple(runs[-1]) if runs else None}
         name = op[0]
         x = None
         if name in ("set_value", "set_cell", "insert_cell", "delete_cell", "cell_repeated"):
@@ -248,6 +253,11 @@ class RowMachine:
                 row.clear()
             elif name == "rstrip":
                 row.rstrip()
+            elif name == "force_width":
+                row.force_width(op[1])
+            elif name == "read_minimized_width":
+                row.minimized_width
+                row.last_cell()
             elif name == "cell_repeated":
                 c = row.get_cell(op[1], clone=False)
                 c.repeated = op[2]
@@ -280,6 +290,13 @@ class RowMachine:
             m.clear()
         elif name == "rstrip":
             m.rstrip()
+        elif name == "force_width":
+            # documented: the repeat count of the last cell, when it is an empty repeated one, is
+            # reduced so that the row is not wider than asked (as far as that one run allows)
+            last = pre["last_run"]
+            W = len(m.cells)
+            if last is not None and last[0] is None and last[1] > 1 and W > op[1]:
+                del m.cells[max(op[1], W - last[1] + 1):]
         elif name == "cell_repeated":
             start, old = pre["run"]
             m.set_run_length(start, old, op[2])
